@@ -50,9 +50,9 @@ def run(ctx):
         jobs.append(dict(text=text, opts=['--strategy', ['ddmin', 'hierarchical', 'hybrid'][k % 3], '-j', str(1 + k % 2)] + fmts[k % 3],
                          cmd=[e2e.TOKPRED, 'all', 'trigger'] if 'trigger' in e2e.sh_tokens(text) else [e2e.TOKPRED, 'all', '"trigger'], env={}, timeout=120))
     # commands whose behaviour differs between candidates in line terminators only (CR LF / CR against LF)
-    for k in range(12 if ctx.thorough else 4):
+    for k in range(16 if ctx.thorough else 4):
         j = e2ejobs.job(rng, fmt=fmts[k % 3], size='small', strategy=['ddmin', 'hierarchical', 'hybrid'][k % 3])
-        j['cmd'] = [e2e.TOKPRED, 'eol' if k % 3 else 'bytes'] + j['cmd'][2:]      # ... or in one undecodable byte against its escaped spelling
+        j['cmd'] = [e2e.TOKPRED, ['bytes', 'eol', 'sup', 'eol'][k % 4]] + j['cmd'][2:]      # ... or is a superstring of the golden text      # ... or in one undecodable byte against its escaped spelling
         if k % 3 == 2:
             j['opts'] = j['opts'] + ['--ignore-out']        # then stderr alone decides
         j['timeout'] = 120
